@@ -343,6 +343,30 @@ def run(eng: Engine, ck: Check):
     gcd = eng.func(SHARES, 'SharesManager._get_child_directories')
     ok = 'directory != shared_directory and directory.is_child_of(shared_directory)' in unparse(gcd.node)
     ck.ob('R-C07-SCAN', gcd, gcd.node, 'child directories = other shared directories below this one', ok, '', construct='child directories')
+    # every consumer of _get_parent_directories takes the INNERMOST parent, consistently with the sort order of that function
+    gpd0 = eng.func(SHARES, 'SharesManager._get_parent_directories')
+    srt = [x for x in calls_in(gpd0.node) if call_name(x) in ('sorted', 'sort')]
+    if len(srt) != 1 or 'len(' not in unparse(kw(srt[0], 'key')) or 'absolute_path' not in unparse(kw(srt[0], 'key')):
+        raise AnalysisError('R-C07-INNERMOST: ordering idiom of _get_parent_directories not recognised')
+    descending = const(kw(srt[0], 'reverse')) is True
+    neg = isinstance(kw(srt[0], 'key'), ast.Lambda) and isinstance(kw(srt[0], 'key').body, ast.UnaryOp)
+    descending = descending != neg
+    want_idx = 0 if descending else -1
+    n_cons = 0
+    for f in repo.all_funcs():
+        if f.module.rel != SHARES:
+            continue
+        for n in walk_local(f.node):
+            if isinstance(n, ast.Assign) and isinstance(n.value, ast.Call) and call_name(n.value) == '_get_parent_directories' and isinstance(n.targets[0], ast.Name):
+                lst = n.targets[0].id
+                for sub in [x for x in walk_local(f.node) if isinstance(x, ast.Subscript) and isinstance(x.value, ast.Name) and x.value.id == lst]:
+                    n_cons += 1
+                    idx = const(sub.slice)
+                    ck.ob('R-C07-INNERMOST', f, sub, f'{f.name}: items move to / come from the INNERMOST enclosing shared directory '
+                          f'(_get_parent_directories sorts {"longest path first" if descending else "longest path last"}, so the innermost parent is [{want_idx}])',
+                          idx == want_idx, f'`{unparse(sub)}` picks the outermost parent when more than two shared directories are nested',
+                          construct=f'{f.qualname} innermost parent')
+    ck.floor('R-C07-INNERMOST', n_cons, 2)
     gpd = eng.func(SHARES, 'SharesManager._get_parent_directories')
     ok = 'directory != shared_directory and directory.is_parent_of(shared_directory)' in unparse(gpd.node) and 'len(d.absolute_path)' in unparse(gpd.node)
     ck.ob('R-C07-SCAN', gpd, gpd.node, 'parent directories = other shared directories above this one, innermost last', ok, '', construct='parent directories')
